@@ -138,27 +138,37 @@ func Eval(c Case, isKnown func(string) bool) (res Result) {
 		var alloc uint64
 		asn1.AllowPermissiveParsing = permissive
 		g := kit.Guard(func() {
-			alloc = kit.MeterAlloc(func() { oc = ep.Run(&cc) })
+			a := kit.AllocBytes()
+			defer func() { alloc = kit.AllocBytes() - a }() // also when the call panics
+			oc = ep.Run(&cc)
 		})
 		asn1.AllowPermissiveParsing = false
-		switch {
-		case g.Panicked:
-			res.Key, res.Msg = PanicKey(g), fmt.Sprintf("%s (%s mode) panicked on %d input bytes: %v\n%s", c.EP, mode, len(c.Data), g.PanicVal, g.Stack)
-		case g.TimedOut:
+		// all violated predicates of this call; report the first one that is not a listed finding
+		type fl struct{ key, msg string }
+		var fls []fl
+		if g.TimedOut {
 			res.Key, res.Msg = "timeout:"+c.EP, fmt.Sprintf("%s (%s mode) did not return within %v on %d input bytes", c.EP, mode, g.Elapsed, len(c.Data))
-		case alloc > limit:
-			res.Key, res.Msg = "C01:alloc:"+c.EP, fmt.Sprintf("%s (%s mode) allocated %d bytes for %d input bytes (bound %d)", c.EP, mode, alloc, len(c.Data), limit)
-		case oc.NilNil:
-			res.Key, res.Msg = "C01:nil-nil:"+c.EP, fmt.Sprintf("%s (%s mode) returned a nil value and a nil error", c.EP, mode)
-		}
-		if res.Key != "" {
-			if kit.IsKnown(res.Key) && !g.TimedOut {
-				// a listed finding: remember it, but still look at the other mode
-				knownKey, knownMsg = res.Key, res.Msg
-				res.Key, res.Msg = "", ""
-				continue
-			}
 			return
+		}
+		if alloc > limit {
+			fls = append(fls, fl{"C01:alloc:" + c.EP, fmt.Sprintf("%s (%s mode) allocated %d bytes for %d input bytes (bound %d)", c.EP, mode, alloc, len(c.Data), limit)})
+		}
+		if g.Panicked {
+			fls = append(fls, fl{PanicKey(g), fmt.Sprintf("%s (%s mode) panicked on %d input bytes: %v\n%s", c.EP, mode, len(c.Data), g.PanicVal, g.Stack)})
+		} else if oc.NilNil {
+			fls = append(fls, fl{"C01:nil-nil:" + c.EP, fmt.Sprintf("%s (%s mode) returned a nil value and a nil error", c.EP, mode)})
+		}
+		for _, f := range fls {
+			if !kit.IsKnown(f.key) {
+				res.Key, res.Msg = f.key, f.msg
+				return
+			}
+			if knownKey == "" {
+				knownKey, knownMsg = f.key, f.msg
+			}
+		}
+		if len(fls) > 0 {
+			continue
 		}
 		if permissive {
 			res.OKPerm = oc.OK
